@@ -108,7 +108,8 @@ def emit_cases(ctx, label, **consts):
                                   rule=v[7], disc=sorted(v[8]['$set']),
                                   trusted=sorted(v[9]['$set']),
                                   cas=sorted(v[10]['$set']),
-                                  revoked=sorted(v[11]['$set'])))
+                                  revoked=sorted(v[11]['$set']),
+                                  userSet=v[12], globalSet=v[13]))
         ctx.require(cases, f'no cases printed by TLC for {label}')
         return cases
     return table
@@ -130,11 +131,10 @@ def main(ctx):
                     shuffle=rp.get('shuffle', False))
         sets = rp.get('sets') or [[], [], []]
         case.update(trusted=sets[0], cas=sets[1], revoked=sets[2])
-        work = None
+        os.makedirs(tlc.WORK, exist_ok=True)
+        work = tempfile.mkdtemp(prefix='c04_kh_', dir=tlc.WORK)
         if rp.get('opt'):
             case['opt_slice'] = True
-            os.makedirs(tlc.WORK, exist_ok=True)
-            work = tempfile.mkdtemp(prefix='c04_kh_', dir=tlc.WORK)
         try:
             r = HT.attempt(case, rp['variant'], workdir=work,
                            opt=rp.get('opt'))
@@ -154,21 +154,27 @@ def main(ctx):
     # ---- 2. the decision table, materialised ------------------------------
     tables = [
         ('lines', emit_cases(ctx, 'lines <= 2, both ports, key and good '
-                             'certificate'), 1200 if quick else None),
-        ('cert', emit_cases(ctx, 'certificate attributes', Focus='"cert"'),
-         700 if quick else None),
-        ('callbacks', emit_cases(ctx, 'callbacks', Focus='"callbacks"',
-                                 MaxLines=1), 350 if quick else None),
-        ('trustall', emit_cases(ctx, 'known_hosts=None', Focus='"trustall"'),
-         200 if quick else None),
-    ]
+                             'certificate'), 900 if quick else None)]
     tables.append(('cbcert', emit_cases(
         ctx, 'owner callbacks x CA listed / not listed / revoked x every '
-        'certificate defect', Focus='"cbcert"'), 550 if quick else None))
+        'certificate defect', Focus='"cbcert"'), 450 if quick else None))
+    tables.append(('sources', emit_cases(
+        ctx, 'where the trust data comes from: default file, '
+        'UserKnownHostsFile / GlobalKnownHostsFile, lines split over them',
+        Focus='"sources"', LineKeys='{"K1", "CA1"}'),
+        400 if quick else None))
     tables.append(('sets3', emit_cases(
         ctx, 'sets of 3 matching lines over K1, K2, CA1, other port',
         Focus='"sets"', LineKeys='{"K1", "K2", "CA1"}', SetSize=3),
-        500 if quick else None))
+        400 if quick else None))
+    tables += [
+        ('cert', emit_cases(ctx, 'certificate attributes', Focus='"cert"'),
+         500 if quick else None),
+        ('callbacks', emit_cases(ctx, 'callbacks', Focus='"callbacks"',
+                                 MaxLines=1), 250 if quick else None),
+        ('trustall', emit_cases(ctx, 'known_hosts=None', Focus='"trustall"'),
+         200 if quick else None),
+    ]
     if not quick:
         tables.append(('sets4', emit_cases(
             ctx, 'sets of 4 matching lines over K1, K2, CA1, other port',
@@ -190,9 +196,15 @@ def main(ctx):
                                LineKeys='{"K1", "K2", "CA1"}')),
             ('skipRevokedKey', dict(LineKeys='{"K1", "CA1"}')),
             ('princIgnored', dict(Focus='"cert"')),
-            ('cbWaivesCertChecks', dict(Focus='"cbcert"'))]
+            ('cbWaivesCertChecks', dict(Focus='"cbcert"')),
+            ('globalOnlyFallback', dict(Focus='"sources"',
+                                        LineKeys='{"K1", "CA1"}'))]
     if not quick:
-        sens += [('fbIgnoresCA', {}), ('cbWaivesWindow', dict(Focus='"cbcert"')),
+        sens += [('fbIgnoresCA', {}),
+                 ('firstFileOnly', dict(Focus='"sources"',
+                                        LineKeys='{"K1", "CA1"}')),
+                 ('globalRevokedIgnored', dict(Focus='"sources"',
+                                               LineKeys='{"K1", "CA1"}')), ('cbWaivesWindow', dict(Focus='"cbcert"')),
                  ('cbKeyForCert', dict(Focus='"cbcert"')), ('vbInclusive', dict(Focus='"cert"')), ('holdsIgnored', dict(MaxLines=1)),
                  ('trustAllSkipsSig', dict(Focus='"trustall"')),
                  ('cbCAForRevoked', dict(Focus='"callbacks"', MaxLines=1)),
@@ -214,6 +226,11 @@ def main(ctx):
     total = 0
     try:
         resolved = {}
+        # the long tables were submitted first; consume the short ones
+        # first so that the replay overlaps with the remaining TLC runs
+        order = ['cert', 'trustall', 'callbacks', 'cbcert', 'sources',
+                 'sets3', 'lines', 'sets4', 'lines3']
+        tables.sort(key=lambda t: order.index(t[0]))
         for tname, tablef, limit in tables:
             table = resolved[tname] = tablef()
             ctx.notes.append(f'table {tname}: {len(table)} cases from TLC, '
@@ -252,7 +269,7 @@ def main(ctx):
         for n, opt in enumerate(HT.OPTION_SETTINGS):
             rows = list(pool)
             rnd.shuffle(rows)
-            rows = core + (rows[:19] if quick else rows)
+            rows = core + (rows[:15] if quick else rows)
             for case in rows:
                 variant = rnd.randrange(1 << 20)
                 case = dict(case, opt_slice=True,
@@ -305,7 +322,8 @@ def main(ctx):
 def core_cases(table):
     """trusted plain key, revoked plain key, trusted CA certificate,
     revoked CA, untrusted key (default port)."""
-    L = lambda mk, k: {'marker': mk, 'match': 'name', 'key': k}
+    L = lambda mk, k: {'marker': mk, 'match': 'name', 'key': k,
+                       'src': 'arg'}
     want = [([L('plain', 'K1')], 'key'),
             ([L('plain', 'K1'), L('revoked', 'K1')], 'key'),
             ([L('ca', 'CA1')], 'cert'),
@@ -382,8 +400,11 @@ def stratified(table, idx, limit, per_variant):
 
 
 def slim(case):
-    return {k: case[k] for k in ('lines', 'port', 'mode', 'cbKey', 'cbCA',
-                                 'pres')}
+    d = {k: case[k] for k in ('lines', 'port', 'mode', 'cbKey', 'cbCA',
+                              'pres')}
+    if case.get('userSet', 'na') != 'na':
+        d['userSet'], d['globalSet'] = case['userSet'], case['globalSet']
+    return d
 
 
 def judge(ctx, HT, tname, case, variant, r, tally):
